@@ -174,6 +174,12 @@ def gen_line_or_scatter(rng, kind, tier):
             opts["colormap_reverse"] = True
         coo = case["c"] or case["z"]
         numeric = coo is not None and (coo in raw["vars"] or raw["coords"][coo]["kind"] != "str")
+        if numeric and rng.random() < 0.2:
+            # logarithmic colour scale (needs a strictly positive quantity; no user limits then)
+            allv = [c for c in (raw["vars"][coo]["cells"] if coo in raw["vars"] else raw["coords"][coo]["ids"])]
+            if allv and all(isinstance(c, int) and c > 0 for c in allv):
+                opts["colormap_log"] = True
+                numeric = False
         if numeric and rng.random() < 0.3:
             vals = sorted(c for c in (raw["vars"][coo]["cells"] if coo in raw["vars"] else raw["coords"][coo]["ids"]))
             lo, hi = vals[0], vals[-1]
